@@ -402,6 +402,7 @@ func runC01(c *Ctx) {
 	// the random stream of the generated programs below
 	cases = append(cases, c01NarrowFamilies(rand.New(rand.NewSource(c.Seed*104729+17)), c.Thorough)...)
 	cases = append(cases, c01MapStaticFamily(rand.New(rand.NewSource(c.Seed*104729+23)), c.Thorough)...)
+	cases = append(cases, c01AliasTwiceFamily(rand.New(rand.NewSource(c.Seed*104729+29)), c.Thorough)...)
 	optsList := []GenOpts{
 		{},
 		{MaxDepth: 3, MaxCalls: 3},
@@ -466,7 +467,7 @@ func runC01(c *Ctx) {
 			}
 			r.hist("final:" + final)
 			if strings.HasPrefix(cs.name, "family/narrow-") || strings.HasPrefix(cs.name, "family/disabled-same-stage") ||
-				strings.HasPrefix(cs.name, "family/map-") {
+				strings.HasPrefix(cs.name, "family/map-") || strings.HasPrefix(cs.name, "family/alias-twice") {
 				cls := strings.Join(strings.SplitN(strings.TrimPrefix(cs.name, "family/"), "-", 3)[:2], "-")
 				r.hist("family:" + cls + ":" + final)
 				if final != "complete" && si == cs.specs[0] {
@@ -481,7 +482,21 @@ func runC01(c *Ctx) {
 				continue
 			}
 			if res.Final != "complete" {
-				continue // not checkable (other findings: crashes / stalls of the real run-time)
+				// (not checkable: crashes / stalls of the real run-time are other properties' findings) —
+				// except in the alias family: every program of it is well typed, all its stages are
+				// fakes that succeed, so a fork that cannot resolve its arguments IS a C01 defect
+				// (no argument record at all where den has one)
+				if strings.HasPrefix(cs.name, "family/alias-twice") && finalClass(res.Final) == "failed" &&
+					strings.Contains(res.ErrMsg, "Error resolving input argument bindings") && reported["alias-fail"] < 2 {
+					reported["alias-fail"]++
+					r.violate(Violation{Kind: "property", Key: "C01:alias-twice:arguments-not-resolved",
+						What: "a fork of a map call inside a sub-pipeline that is instantiated twice under aliases cannot resolve its arguments (den defines them): " +
+							c01Trunc(classifyRuntimeError(res.Final, res.ErrMsg), 200),
+						Input: map[string]interface{}{"program": cs.src, "name": specs[si].Name,
+							"replay": "write program to f.mro; TA_MRO=f.mro harness TA"},
+						Broken: "resolver_refines_den (core.TopNode.resolveMerge: the fork part of the shared call statement)"})
+				}
+				continue
 			}
 			if res.Unsupp != "" {
 				r.hist("skipped:" + res.Unsupp)
